@@ -3,8 +3,9 @@ import random
 import gens, blk, compcases as cc
 from capi import Lib, Buf
 
-THEOREMS = ["C09_fast_generic_cap", "C09_fast_extState", "C09_fast_extState_fastReset"]
-CORRESPONDENCE = ["Model.FastApi == liblz4 for every capacity tried: return value, bytes, and the model's write high-water mark <= capacity"]
+THEOREMS = ["C09_fast_generic_cap", "C09_fast_extState", "C09_fast_extState_fastReset", "C09_hc_emitter_cap", "C09_hc_emitter_encoding"]
+CORRESPONDENCE = ["Model.FastApi == liblz4 for every capacity tried: return value, bytes, and the model's write high-water mark <= capacity",
+                  "Model.HcEmit.encodeSequence == LZ4HC_encodeSequence (static function reached by #include): return code, bytes, new op/ip/anchor, for literal and match lengths on every length-encoding boundary x every room value around both limit checks"]
 RULE = ("inputs weighted to incompressible / barely compressible data, long literal runs and long matches straddling 255-multiples; "
         "EVERY capacity 0..bound+1 for inputs <= 48 bytes, capacities dense around each sequence boundary of the bound-capacity output and random otherwise; "
         "entry points {default, fast(accel), extState, fastReset history, HC levels, HC extState, fast_continue, HC_continue}; destination buffer has EXACTLY the "
@@ -17,14 +18,18 @@ ASSUMPTIONS = ["64-bit little-endian target"]
 
 def build(tier):
     from vlib import build_lib
-    return {"lib": build_lib("default")}
+    return {"lib": build_lib("default"), "hcemit": cc.hcemit_lib()}
 
 def gen_cases(tier, seed):
     rng = random.Random(seed * 131 + 9)
     n = {"quick": 64, "search": 256, "thorough": 600}[tier]
-    return [{"bseed": rng.randrange(1 << 48), "count": 6, "mode": ["small", "small", "mid", "mid", "big", "bad"][i % 6]} for i in range(n)]
+    return [{"bseed": rng.randrange(1 << 48), "count": 6, "mode": ["small", "small", "mid", "mid", "big", "bad", "emit", "litrun"][i % 8]} for i in range(n)]
 
-worker_init = blk.worker_init
+def worker_init(ctx):
+    import ctypes
+    st = blk.worker_init(ctx)
+    st["hcemit"] = ctypes.CDLL(ctx["hcemit"])
+    return st
 
 def seq_boundaries(out):
     """output offsets at which a sequence of the block ends"""
@@ -112,6 +117,41 @@ def run_case(st, case):
     for j in range(case["count"]):
         info = {"bseed": case["bseed"], "j": j, "mode": case["mode"]}
         mode = case["mode"]
+        if mode == "emit":
+            LLS = [0, 1, 14, 15, 16, 254, 255, 256, 269, 270, 271, 509, 510, 511, 512, 765, 767, 1020, 1024, 5625, 5881, 70000]
+            MLS = [4, 5, 18, 19, 20, 273, 274, 275, 528, 529, 530, 783, 784, 1039, 70000]
+            for _ in range(40):
+                L = rng.choice(LLS); ml = rng.choice(MLS); off = rng.choice([1, 2, 255, 256, 65535])
+                need1 = 1 + L // 255 + L + 8          # first limit check threshold (room)
+                need2 = 1 + (0 if L < 15 else (L - 15) // 255 + 1) + L + 2 + (ml - 4) // 255 + 6
+                for room in sorted(set([need1 - 2, need1 - 1, need1, need1 + 1, need2 - 1, need2, need2 + 1, max(need1, need2) + 9,
+                                        1 + (L >> 8) + L + 8, 1 + L // 256 + L + 8])):
+                    if room >= 1:
+                        cc.run_hcemit(st, rng, res, info, L, ml, off, True, room)
+                cc.run_hcemit(st, rng, res, info, L, ml, off, False, 0)
+                res["keys"].add(cc.key_of("emit", L, ml, off))
+            res["stats"]["mode_emit"] += 1
+            continue
+        if mode == "litrun":
+            # first sequence = L incompressible literals + a match: every capacity around the literal-run budget test
+            # (and around where x/255, x>>8, x/256 would put it), fast and HC
+            CRIT = [15, 255, 256, 270, 510, 511, 765, 1020, 1275, 2550, 5624, 5625, 5626, 5881, 6137, 11497]
+            for L in rng.sample(CRIT, 5):
+                lit = rng.randbytes(L)
+                # the run is followed by copies of its own first bytes (all of which the search has inserted while its
+                # step was still 1), so the match is found wherever the accelerated search lands and catch-up moves it
+                # back to exactly L literals
+                src = lit + lit[:min(64, L)] * rng.choice([8, 12, 40]) + rng.randbytes(13)
+                ths = set()
+                for d in (L // 255, L >> 8, L // 256):
+                    t = 1 + L + 8 + d
+                    ths.update(range(t - 3, t + 5))
+                caps = sorted(c for c in ths if c >= 0)
+                run_variant(st, rng, res, info, "fast", src, caps)
+                run_variant(st, rng, res, info, "hc", src, caps)
+                res["keys"].add(cc.key_of("litrun", L, case["bseed"]))
+            res["stats"]["mode_litrun"] += 1
+            continue
         if mode == "bad":
             # negative and oversized declared sizes must yield 0 without touching memory
             srcb = Buf(16, data=b"0123456789abcdef"); dstb = Buf(64, fill=0xC3)
@@ -125,11 +165,11 @@ def run_case(st, case):
             res["keys"].add(cc.key_of("bad", case["bseed"], j)); res["keys"].add(cc.key_of("bad2", case["bseed"], j))
             srcb.free(); dstb.free()
             continue
-        kind = rng.choice(["random", "barely", "lit255", "longmatch", "runs", "incompressible_tail", "text", "twosym"])
+        kind = rng.choice(["random", "barely", "lit255", "lit255", "longmatch", "runs", "incompressible_tail", "text", "twosym"])
         if mode == "small":
             n = rng.choice(list(range(0, 49)))
         elif mode == "mid":
-            n = rng.choice([60, 255, 256, 270, 271, 285, 286, 524, 525, 526, 1000, 4095, 4096, 5000])
+            n = rng.choice([60, 255, 256, 270, 271, 285, 286, 524, 525, 526, 1000, 4095, 4096, 5000, 6000])
         else:
             n = rng.choice([65535 - 12, 65535, 65536 + 11, 65547, 70000])
         src = gens.data(rng, kind, n)
